@@ -1,4 +1,5 @@
 import SameVerif.Model.Bytes
 import SameVerif.Model.Combiner
 import SameVerif.Model.Header
+import SameVerif.Model.HeaderSem
 import SameVerif.Model.Message
